@@ -4681,6 +4681,16 @@ impl<'a> Parser<'a> {
 
         while !self.check(&TokenKind::Gt) && !self.is_at_end() {
             let param_start = self.current.span;
+            // Modifiers: <const T>, <in T>, <out T>, <in out T> (`out` alone is a name)
+            loop {
+                if self.check(&TokenKind::Const) || self.check(&TokenKind::In) {
+                    self.advance();
+                } else if self.check_keyword("out") && self.peek_is_identifier() {
+                    self.advance();
+                } else {
+                    break;
+                }
+            }
             let name = self.parse_identifier()?;
 
             let constraint = if self.match_token(&TokenKind::Extends) {
@@ -5064,6 +5074,14 @@ impl<'a> Parser<'a> {
         let next = self.lexer.next_token();
         self.lexer.restore(checkpoint);
         mem::discriminant(&next.kind) == mem::discriminant(kind)
+    }
+
+    /// Check if the next token (after current) is an identifier
+    fn peek_is_identifier(&mut self) -> bool {
+        let checkpoint = self.lexer.checkpoint();
+        let next = self.lexer.next_token();
+        self.lexer.restore(checkpoint);
+        matches!(next.kind, TokenKind::Identifier(_))
     }
 
     fn check_identifier(&self) -> bool {
